@@ -34,6 +34,8 @@ pub fn produce<F: FElem>(prod: &str, conf: Confidence, d: &Data<F>) -> String {
         ("wilson", Data::NK(n, k)) => enc_cires(&proportion::ci(conf, *n, *k)),
         ("wald", Data::NK(n, k)) => enc_cires(&proportion::ci_z_normal(conf, *n, *k)),
         ("qidx", Data::NQ(n, q)) => enc_cires(&quantile::ci_indices(conf, *n, *q)),
+        // the median interval of unsorted data whose values are their own ranks (a permutation of 0..n)
+        ("qci", Data::One(x)) => enc_cires(&quantile::ci(conf, x, 0.5)),
         _ => "bad".to_string(),
     })
 }
@@ -55,6 +57,7 @@ pub fn estimate<F: FElem>(prod: &str, d: &Data<F>) -> String {
         }
         ("wilson", Data::NK(n, k)) | ("wald", Data::NK(n, k)) => (*k as f64 / *n as f64).enc(),
         ("qidx", Data::NQ(n, q)) => format!("{}", (q * *n as f64).round() as usize),
+        ("qci", Data::One(x)) => format!("{}", (0.5 * x.len() as f64).round() as usize),
         _ => "bad".to_string(),
     })
 }
@@ -215,6 +218,21 @@ fn c16_for<F: FElem>(out: &mut Vec<String>, rng: &mut Rng, reps: usize) {
             let k = F::from64((2.0f64).powi(e as i32));
             out.push(xf_line("geo", "scale", &format!("{}", e), conf, &Data::One(g.clone()), conf, &Data::One(g.iter().map(|v| *v * k).collect())));
         }
+        if i % 5 == 0 {
+            // unpaired samples whose exact effective dof is a whole number (equal sizes and spreads: the second
+            // sample is a shifted, reversed copy of the first; or a constant baseline): shift and reorder
+            let conf = rand_conf(rng);
+            let n = rng.range(3, 12) as usize;
+            let a: Vec<f64> = (0..n).map(|_| (rng.range(-400, 400) as f64) * 0.1 + rng.unit() * 0.01).collect();
+            let sh = rng.range(-20, 20) as f64 * 0.5;
+            let bq: Vec<f64> = if i % 10 == 0 { vec![5.0; n.max(3) - 1] } else { a.iter().rev().map(|x| x + sh).collect() };
+            let (fa, fb): (Vec<F>, Vec<F>) = (a.iter().map(|x| F::from64(*x)).collect(), bq.iter().map(|x| F::from64(*x)).collect());
+            let d = Data::Two(fa.clone(), fb.clone());
+            let c = F::from64(0.1 + rng.unit());
+            // (the same shift on both samples leaves the difference where it is: the relation is "equal up to rounding")
+            out.push(xf_line("unpaired", "perm", "0", conf, &d, conf, &map1(&d, &|x| x + c)));
+            out.push(xf_line("unpaired", "perm", "0", conf, &d, conf, &Data::Two(shuffle(rng, &fa), shuffle(rng, &fb))));
+        }
         if i % 20 == 0 {
             // all permutations of a small sample
             let base: Vec<F> = sample_f64(rng, 5, 10, 20.0).iter().map(|x| F::from64(*x)).collect();
@@ -297,6 +315,38 @@ pub fn c10(out: &mut Vec<String>, rng: &mut Rng, tier: &str) {
         }
         if tier != "thorough" && prod == "harm" {
             // (the quick tier keeps the line count moderate)
+        }
+    }
+    // quantile intervals of unsorted samples (values = ranks), below and above the fixed-capacity limit of 1024
+    for n in [20usize, 300, 1025, 2500] {
+        let perm: Vec<f64> = shuffle(rng, &(0..n).map(|i| i as f64).collect::<Vec<f64>>());
+        let d: Data<f64> = Data::One(perm);
+        let est = estimate("qci", &d);
+        for l in [0.6f64, 0.9, 0.975] {
+            for kind in 1..3u64 {
+                let (ca, cb) = (conf_of(kind, l), conf_of(0, 2.0 * l - 1.0));
+                out.push(format!(
+                    "C10 ci2 f qci {} {} {} => {} | {} | {}",
+                    enc_conf(&ca), enc_conf(&cb), enc_data(&d), produce("qci", ca, &d), produce("qci", cb, &d), est
+                ));
+            }
+            let (ca, cb) = (conf_of(0, l), conf_of(0, 0.5 + l / 2.0));
+            out.push(format!(
+                "C10 ci2 f qci {} {} {} => {} | {} | {}",
+                enc_conf(&ca), enc_conf(&cb), enc_data(&d), produce("qci", ca, &d), produce("qci", cb, &d), est
+            ));
+        }
+    }
+    // the Wilson-based producers at a level within an ulp of 1 (infinite critical value: the widest interval)
+    for (prod, d) in [("wilson", Data::<f64>::NK(40, 13)), ("wilson", Data::NK(5000, 4000)), ("qidx", Data::NQ(50, 0.3)), ("qidx", Data::NQ(2000, 0.9))] {
+        let est = estimate(prod, &d);
+        let top = f64::from_bits(1.0f64.to_bits() - 1);
+        for l in [0.5f64, 0.99, 0.999999] {
+            let (ca, cb) = (conf_of(0, l), conf_of(0, top));
+            out.push(format!(
+                "C10 ci2 f {} {} {} {} => {} | {} | {}",
+                prod, enc_conf(&ca), enc_conf(&cb), enc_data(&d), produce(prod, ca, &d), produce(prod, cb, &d), est
+            ));
         }
     }
     // proportion producers at the edge of their domains (few successes / failures) at very high levels
